@@ -293,7 +293,23 @@ func (cp *ctxProv) classifyTuple(pkg *packages.Package, e ast.Expr, at ast.Node,
 		if len(x.Elts) == 0 {
 			return forbidden("zero tuple literal (nil context)")
 		}
-		return undecided("tuple composite literal")
+		// lo.Tuple2[context.Context, T]{A: ctx, B: v} / {ctx, v}: the context is the A element
+		var ctxElt ast.Expr
+		for i, el := range x.Elts {
+			if kv, ok := el.(*ast.KeyValueExpr); ok {
+				if k, ok := kv.Key.(*ast.Ident); ok && k.Name == "A" {
+					ctxElt = kv.Value
+				}
+			} else if i == 0 {
+				ctxElt = el
+			}
+		}
+		if ctxElt == nil {
+			return forbidden("tuple literal without its context element (nil context)")
+		}
+		r := cp.classify(pkg, ctxElt, x, depth+1)
+		r.why = "tuple of " + r.why
+		return r
 	case *ast.Ident:
 		v, _ := objOf(info, x).(*types.Var)
 		if v == nil {
